@@ -1,5 +1,5 @@
 """Per-property checks. Each function fills a common.Result."""
-import json, os, re
+import subprocess, json, os, re
 from . import common as C
 from . import seqsuite as S
 from . import rustcsuite as RS
@@ -27,7 +27,7 @@ THEOREMS = {
 }
 
 THEOREMS["C09"] = [("Flurry.Props.C09", [
-    "Flurry.C09.all_public_guarded", "Flurry.C09.checkedUsesWith_sound", "Flurry.C09.checkedRow_sound",
+    "Flurry.C09.all_public_guarded", "Flurry.C09.check_guard_unconditional", "Flurry.C09.checkedUsesWith_sound", "Flurry.C09.checkedRow_sound",
     "Flurry.C09.checked_sound", "Flurry.C09.no_foreign_use"])]
 
 THEOREMS["C06"] = [("Flurry.Props.C06", [
@@ -94,7 +94,11 @@ def setup():
     ok2, out2 = C.build_harness()
     if not ok2:
         print(out2[-4000:])
-    return 0 if (ok and ok2) else 1
+    C.log("setup: harness (release profile, for C09)")
+    ok3, out3 = C.build_harness(release=True)
+    if not ok3:
+        print(out3[-4000:])
+    return 0 if (ok and ok2 and ok3) else 1
 
 
 # ------------------------------------------------------------------------------------ shared steps
@@ -226,7 +230,7 @@ CONC_TAGS = {
     "lin": ["C01"], "cip": ["C08"], "deadlock": ["C11"], "livelock": ["C11"], "read-blocks": ["C12"],
     "quiescent": ["C05"], "panic": ["C01", "C18"], "double-free": ["C03", "C04"], "crash": ["C01", "C03", "C08", "C11", "C12", "C05", "C10", "C13", "C07"],
     "uaf": ["C03"], "early-free": ["C03", "C04"], "retire-reachable": ["C03"], "drop": ["C04"], "iter": ["C07"], "retain": ["C13"],
-    "resize": ["C10"], "hb": ["C15"],
+    "resize": ["C10"], "hb": ["C15"], "clear": ["C05"],
 }
 
 
@@ -278,32 +282,61 @@ def _conc_step_one(R, prop, extra_args=None, cases=None, suite="conc"):
     os.makedirs(os.path.dirname(base), exist_ok=True)
     while rounds:
         seed, cases_n = rounds.pop(0)
-        cmd = [C.HARNESS_BIN, suite, "--seed", str(seed), "--cases", str(cases_n), "--lin", base + ".lin", "--progress", base + ".progress"]
-        if R.tier == "thorough":
-            cmd += ["--big", "1"]
-        cmd += extra_args or []
-        rc, out = C.sh(cmd, timeout=7200)
-        lines = [l for l in out.splitlines() if l.startswith("{")]
-        if rc != 0 or not lines:
-            where = open(base + ".progress").read() if os.path.exists(base + ".progress") else "?"
-            f = "[crash] the harness process died (exit %d) while running %s: memory corruption or abort inside the implementation" % (rc, where)
-            if prop in CONC_TAGS["crash"]:
-                m = re.search(r"case-seed (\d+)", where)
-                R.add_failing(f, {"suite": suite, "how": "%s %s --case-seed %s --verbose 1" % (C.HARNESS_BIN, suite, m.group(1) if m else "?")})
+        # shard the case sequence of this seed over processes (each case is independent and is
+        # identified by its own case-seed; ledger and quarantine allocator are per process)
+        nshard = max(1, min(C.JOBS, cases_n // 40))
+        per = (cases_n + nshard - 1) // nshard
+        procs = []
+        for j in range(nshard):
+            first, cnt = j * per, max(0, min(per, cases_n - j * per))
+            if cnt == 0:
+                continue
+            b = "%s.%d" % (base, j)
+            cmd = [C.HARNESS_BIN, suite, "--seed", str(seed), "--first", str(first), "--cases", str(cnt), "--lin", b + ".lin", "--progress", b + ".progress"]
+            if R.tier == "thorough":
+                cmd += ["--big", "1"]
+            cmd += extra_args or []
+            procs.append((b, subprocess.Popen(cmd, stdout=subprocess.PIPE, stderr=subprocess.STDOUT, text=True)))
+        crashed = False
+        lin_src = []
+        for b, pr in procs:
+            try:
+                out, _ = pr.communicate(timeout=7200)
+                rc = pr.returncode
+            except subprocess.TimeoutExpired:
+                pr.kill()
+                out, rc = "", -9
+            lines = [l for l in out.splitlines() if l.startswith("{")]
+            if rc != 0 or not lines:
+                where = open(b + ".progress").read() if os.path.exists(b + ".progress") else "?"
+                f = "[crash] the harness process died (exit %d) while running %s: memory corruption or abort inside the implementation" % (rc, where)
+                if prop in CONC_TAGS["crash"]:
+                    m = re.search(r"case-seed (\d+)", where)
+                    R.add_failing(f, {"suite": suite, "how": "%s %s --case-seed %s --verbose 1" % (C.HARNESS_BIN, suite, m.group(1) if m else "?")})
+                crashed = True
+                continue
+            rep = json.loads(lines[-1])
+            for k in agg:
+                if k in rep:
+                    agg[k] = max(agg[k], rep[k]) if k == "hook_sites" else agg[k] + rep[k]
+            samples = samples or rep.get("samples", [])[:2]
+            for f in rep["failures"]:
+                if prop in conc_props_of(f):
+                    m = re.search(r"\[case-seed (\d+)\]", f)
+                    R.add_failing(f, {"suite": suite, "how": "%s %s --case-seed %s --verbose 1" % (C.HARNESS_BIN, suite, m.group(1) if m else "?")})
+            if os.path.exists(b + ".lin"):
+                lin_src += open(b + ".lin").read().splitlines()
+        for b, _ in procs:
+            for ext in (".lin", ".progress"):
+                if os.path.exists(b + ext):
+                    os.remove(b + ext)
+        if crashed:
             break
-        rep = json.loads(lines[-1])
-        for k in agg:
-            if k in rep:
-                agg[k] = max(agg[k], rep[k]) if k == "hook_sites" else agg[k] + rep[k]
-        samples = samples or rep.get("samples", [])[:2]
-        for f in rep["failures"]:
-            if prop in conc_props_of(f):
-                m = re.search(r"\[case-seed (\d+)\]", f)
-                R.add_failing(f, {"suite": suite, "how": "%s %s --case-seed %s --verbose 1" % (C.HARNESS_BIN, suite, m.group(1) if m else "?")})
-        if prop in ("C01", "C08") and os.path.exists(C.MODEL_BIN) and os.path.exists(base + ".lin"):
+        if prop in ("C01", "C08") and os.path.exists(C.MODEL_BIN) and lin_src:
+            open(base + ".lin", "w").write("\n".join(lin_src) + "\n")
             rc2, mout = C.sh("%s < %s.lin" % (C.MODEL_BIN, base), timeout=1200)
             ls = [l for l in mout.splitlines() if not l.startswith("WARNING")]
-            src = open(base + ".lin").read().splitlines()
+            src = lin_src
             agg["certificates_validated_by_lean"] += sum(1 for l in ls if l == "ok")
             for a, b in zip(src, ls):
                 if b != "ok":
@@ -334,7 +367,7 @@ def check_C10(R):
     lean_step(R, "C10")
     if harness_step(R):
         seq_step(R, "C10")
-        conc_step(R, "C10", modes=("resize",), merge=True)
+        conc_step(R, "C10", modes=("resize", "treeresize"), merge=True)
 
 
 def check_C14(R):
@@ -381,27 +414,40 @@ def check_C09(R):
         R.add_broken("Lean: all_public_guarded is false for the rows " + " ".join(l for l in out.splitlines() if l.startswith("[")))
     if not harness_step(R):
         return
-    rc, out = C.sh([C.HARNESS_BIN, "guards"], timeout=600)
-    try:
-        outs = json.loads([l for l in out.splitlines() if l.startswith("[")][-1])
-    except Exception:
-        R.add_broken("harness `guards` run failed: " + out[-300:])
-        return
+    # both build profiles: a check that only exists with debug assertions is no check
+    okr, bout = C.build_harness(release=True)
+    if not okr:
+        R.add_broken("the harness no longer builds in the release profile: " + bout[-300:])
     rows = guard_table()
     nontrivial = {(t, f, p) for t, f, b, p, nt in rows if nt}
     public_nt = {(t, f, p) for t, f, b, p, nt in rows if nt and b}
-    exercised = {(o["ty"], o["fn"], o["param"]) for o in outs}
-    distinct = set()
-    for o in outs:
-        key = (o["ty"], o["fn"], o["param"])
-        distinct.add(key + (o["populated"],))
-        what = "%s::%s (guard `%s`) on a%s collection" % (o["ty"], o["fn"], o["param"], " populated" if o["populated"] else "n empty")
-        if o["changed"]:
-            R.add_failing("a call of %s with a guard of a foreign collector changed the map" % what, {"suite": "guards", "how": C.HARNESS_BIN + " guards", "outcome": o})
-        elif o["populated"] and not o["panicked"] and (key in nontrivial or key[0] in ("HashMap", "HashSet")):
-            R.add_failing("%s accepted a guard of a foreign collector (no panic)" % what, {"suite": "guards", "how": C.HARNESS_BIN + " guards", "outcome": o})
+    distinct, outs_all, exercised = set(), [], set()
+    for profile, binary in (("debug", C.HARNESS_BIN), ("release", C.HARNESS_BIN_RELEASE)):
+        if profile == "release" and not okr:
+            continue
+        rc, out = C.sh([binary, "guards"], timeout=600)
+        try:
+            outs = json.loads([l for l in out.splitlines() if l.startswith("[")][-1])
+        except Exception:
+            if rc < 0:
+                R.add_failing("[crash] the `guards` run (%s profile) died with signal %d: a foreign guard was accepted and memory was corrupted" % (profile, -rc),
+                              {"suite": "guards", "how": binary + " guards"})
+            else:
+                R.add_broken("harness `guards` run (%s profile) failed: %s" % (profile, out[-300:]))
+            continue
+        outs_all += outs
+        exercised |= {(o["ty"], o["fn"], o["param"]) for o in outs}
+        for o in outs:
+            key = (o["ty"], o["fn"], o["param"])
+            distinct.add(key + (o["populated"], profile))
+            what = "%s::%s (guard `%s`) on a%s collection, %s profile" % (o["ty"], o["fn"], o["param"], " populated" if o["populated"] else "n empty", profile)
+            if o["changed"]:
+                R.add_failing("a call of %s with a guard of a foreign collector changed the map" % what, {"suite": "guards", "how": binary + " guards", "outcome": o})
+            elif o["populated"] and not o["panicked"] and (key in nontrivial or key[0] in ("HashMap", "HashSet")):
+                R.add_failing("%s accepted a guard of a foreign collector (no panic)" % what, {"suite": "guards", "how": binary + " guards", "outcome": o})
+    outs = outs_all
     R.cov.update({"evaluations": len(outs), "distinct_nontrivial": len(distinct),
-                  "rule": "every public guard-accepting method of HashMap/HashSet and every method of the with_guard wrappers, called with a guard of an unrelated seize::Collector on empty and populated collections (list and tree bins) under catch_unwind; distinct by (type, method, guard parameter, populated)",
+                  "rule": "every public guard-accepting method of HashMap/HashSet and every method of the with_guard wrappers, called with a guard of an unrelated seize::Collector on empty and populated collections (list and tree bins) under catch_unwind, in the debug AND the release build profile; distinct by (type, method, guard parameter, populated, profile)",
                   "samples": outs[:3], "exhaustive": True,
                   "table_rows": len(rows), "public_rows": len([r for r in rows if r[2]]),
                   "public_rows_not_exercised_at_runtime": sorted("%s::%s(%s)" % k for k in public_nt - exercised)})
@@ -542,7 +588,7 @@ def check_C17(R):
     R.trusted = TRUSTED_COMMON + ["rustc as the arbiter of trait-bound errors", "classification of 'inserting entry point' from the signature (Props/C17.lean: by-value K/V/T parameter, closure returning Option<V>, or a bulk trait)"]
     translator_step(R)
     ok = lean_step(R, "C17")
-    out = lean_eval(["Flurry.SigDefs", "Flurry.Gen.Api"] + (["Flurry.Props.C17"] if True else []),
+    out = lean_eval(["Flurry.SigDefs", "Flurry.Gen.Api", "Flurry.Props.C17Defs"],
                     "open Flurry.Sig Flurry.Gen Flurry.C17 in\n#eval (apiFns.filter inserting).map (fun f => s!\"INS|{f.ty}::{if f.trait_ == \"\" then f.fn else f.trait_}|{sendSync f}\") |>.forM IO.println\n")
     ins = {}
     for l in out.splitlines():
@@ -607,7 +653,7 @@ def check_C01(R):
     translator_step(R)
     lean_step(R, "C01")
     if harness_step(R):
-        conc_step(R, "C01", modes=("mixed", "tree", "resize"))
+        conc_step(R, "C01", modes=("mixed", "tree", "resize", "treeresize"))
 
 
 def check_C08(R):
@@ -616,7 +662,7 @@ def check_C08(R):
     translator_step(R)
     lean_step(R, "C08")
     if harness_step(R):
-        conc_step(R, "C08", modes=("mixed", "tree", "cip"))
+        conc_step(R, "C08", modes=("mixed", "tree", "cip", "treeresize"))
 
 
 SEQ_TRUST = ["the sequential model Flurry/Seq/Model.lean is a hand transcription of src/map.rs; it is compared with the implementation on every answer and on a full structural dump after every mutating operation"]
@@ -638,7 +684,7 @@ def check_C05(R):
     lean_step(R, "C05")
     if harness_step(R):
         seq_step(R, "C05")
-        conc_step(R, "C05", modes=("mixed", "resize", "tree"), merge=True)
+        conc_step(R, "C05", modes=("mixed", "resize", "tree", "clear", "treeresize"), merge=True)
 
 
 def check_C13(R):
@@ -669,7 +715,7 @@ def check_C03(R):
     lean_step(R, "C03")
     if harness_step(R):
         seq_step(R, "C03", life=True)
-        conc_step(R, "C03", extra_args=["--life", "1"], modes=("mixed", "tree", "resize", "iter"), merge=True, cases=TIERS[R.tier]["conc_cases"] // 2)
+        conc_step(R, "C03", extra_args=["--life", "1"], modes=("mixed", "tree", "resize", "iter", "treeresize", "clear"), merge=True)
 
 
 def check_C04(R):
@@ -679,7 +725,7 @@ def check_C04(R):
     lean_step(R, "C04")
     if harness_step(R):
         seq_step(R, "C04", life=True)
-        conc_step(R, "C04", extra_args=["--life", "1"], modes=("mixed", "tree", "resize"), merge=True, cases=TIERS[R.tier]["conc_cases"] // 2)
+        conc_step(R, "C04", extra_args=["--life", "1"], modes=("mixed", "tree", "resize", "treeresize", "clear"), merge=True)
 
 
 def check_C07(R):
@@ -697,7 +743,7 @@ def check_C11(R):
     translator_step(R)
     lean_step(R, "C11")
     if harness_step(R):
-        conc_step(R, "C11", modes=("mixed", "tree", "resize", "iter"))
+        conc_step(R, "C11", modes=("mixed", "tree", "resize", "iter", "treeresize", "clear"))
 
 
 def check_C12(R):
@@ -706,7 +752,11 @@ def check_C12(R):
     translator_step(R)
     lean_step(R, "C12")
     if harness_step(R):
-        conc_step(R, "C12", modes=("mixed", "tree", "solo"))
+        n = TIERS[R.tier]["conc_cases"]
+        conc_step(R, "C12", modes=("mixed", "tree"), cases=n // 2)
+        # the deciding mode: a read suspended at a random point of its own execution while the
+        # writers run (possibly through several resizes), then run alone and its own steps counted
+        conc_step(R, "C12", modes=("solo",), cases=2 * n, merge=True)
 
 
 def check_C15(R):
@@ -717,7 +767,7 @@ def check_C15(R):
     translator_step(R)
     lean_step(R, "C15")
     if harness_step(R):
-        conc_step(R, "C15", extra_args=["--life", "1"], modes=("mixed", "tree", "resize", "iter"), cases=TIERS[R.tier]["conc_cases"] // 2)
+        conc_step(R, "C15", extra_args=["--life", "1"], modes=("mixed", "tree", "resize", "iter", "treeresize"))
         R.cov["rule"] += " || C15: vector clocks over the recorded event stream with the orderings actually passed at run time; every cross-thread dereference of an allocation must be ordered after it"
 
 
